@@ -160,7 +160,10 @@ func RunC10(run *vk.Run) {
 	var mu sync.Mutex
 	var traced []faultCase
 	// the two nonprod key managers and the Cloud KMS key manager (keys/gcpkms over the repository's KMS fake)
-	combosC10 := append(append([]Combo{}, Combos...), Combo{"gcpkms", "memca"}, Combo{"gcpkms", "gcsca"})
+	// ... and the object-store authority on real files (storage/local behind the tap): there only the calls on
+	// the new certificate's object are made to fail / are crash points (storage/local writes an object in
+	// place, so a crash inside the manifest's write is outside the object-atomicity assumption)
+	combosC10 := append(append([]Combo{}, Combos...), Combo{"gcpkms", "memca"}, Combo{"gcpkms", "gcsca"}, Combo{"localkm", "gcsdisk"})
 	for _, combo := range combosC10 {
 		for nrot := 0; nrot <= maxRot; nrot++ {
 			if run.IsQuick() && nrot == 1 && combo.CA == "localca" {
@@ -204,8 +207,20 @@ func RunC10(run *vk.Run) {
 				stride = 4 // quick tier: the two main combinations in full, the others sampled
 			}
 			for i := 1 + (int(run.Seed)+nrot)%stride; i <= len(calls); i += stride {
+				if combo.CA == "gcsdisk" {
+					break
+				}
 				for _, m := range modes {
 					jobs = append(jobs, job{i, m})
+				}
+			}
+			if combo.CA == "gcsdisk" {
+				for i, c := range calls {
+					if (strings.HasPrefix(c, "Storage.Writer ") || strings.HasPrefix(c, "Storage.Close ") || strings.HasPrefix(c, "Storage.Exists ")) && strings.HasSuffix(c, ".crt") {
+						for _, m := range modes {
+							jobs = append(jobs, job{i + 1, m})
+						}
+					}
 				}
 			}
 			parallel(len(jobs), func(j int) {
